@@ -33,9 +33,10 @@ def send_req(c, path, nseg, gap):
         return False
 
 
-def run_real(threads, busy, plan, gap=0.25):
+def run_real(threads, busy, plan, gap=0.25, chatter=False):
     """plan: segments of each successive request on ONE keep-alive connection; busy: slow requests kept in flight on
-    other connections meanwhile.  -> (trace, meta)"""
+    other connections meanwhile; chatter: other clients connect, ask and leave several times a second all the while (the
+    worker's poller never times out).  -> (trace, meta)"""
     s = rp.Server("gthread", workers=1, threads=threads, args=["--keep-alive", str(KA), "--timeout", "30"], name="c13")
     try:
         s.start()
@@ -48,6 +49,17 @@ def run_real(threads, busy, plan, gap=0.25):
             bg.append(t)
         time.sleep(0.3)
         ev = []
+        quiet = threading.Event()
+
+        def chat():
+            while not quiet.is_set():
+                try:
+                    s.get("/pid", timeout=5)
+                except OSError:
+                    pass
+                time.sleep(0.15)
+        if chatter:
+            threading.Thread(target=chat, daemon=True).start()
         c = s.connect(timeout=8)
         alive = True
         for nth, nseg in enumerate(plan, 1):
@@ -71,9 +83,11 @@ def run_real(threads, busy, plan, gap=0.25):
                 after = int((time.time() - t0) * 1000) + 200
             ev.append({"e": "idle", "c": 1, "after_ms": after})
         c.close()
+        quiet.set()
         return {"threads": threads, "ka_ms": KA * 1000, "slack_ms": SLACK, "ev": ev}, \
-            {"threads": threads, "busy": busy, "plan": plan, "log": s.errlog()[-400:]}
+            {"threads": threads, "busy": busy, "plan": plan, "chatter": chatter, "log": s.errlog()[-400:]}
     finally:
+        quiet.set()
         s.cleanup()
 
 
@@ -204,10 +218,11 @@ def real_side(ctx):
     from props.reload_real import _parallel
     plan = [(2, 1, [1, 2, 3]), (1, 0, [2, 1, 4]), (3, 2, [3, 3])] if ctx.quick else \
         [(t, b, p) for t in (1, 2, 4) for b in range(0, t) for p in ([1, 2, 3], [2, 1, 4], [3, 3], [1, 1, 8])]
+    plan = plan + [(2, 0, [1, 2], True), (3, 1, [1], True)] + ([] if ctx.quick else [(1, 0, [1, 1, 1], True), (4, 2, [2, 2], True)])
     plan = plan + [("pipelined", 2, None), ("saturated", 2, None), ("inherited", 2, None)] + ([] if ctx.quick else [("pipelined", 1, None)])
     def one(a, i):
         return run_pipelined(a[1]) if a[0] == "pipelined" else run_saturated() if a[0] == "saturated" \
-            else run_inherited() if a[0] == "inherited" else run_real(a[0], a[1], a[2])
+            else run_inherited() if a[0] == "inherited" else run_real(a[0], a[1], a[2], chatter=len(a) > 3 and a[3])
     results = _parallel(plan, one, par=9)
     traces = [r[0] for r in results]
     metas = [r[1] for r in results]
